@@ -78,6 +78,7 @@ def plan(tier):
     return [('sweep', nb * SLOTS),
             ('sweep_long_url', nb * SLOTS),
             ('sweep_fd0', nb * SLOTS),
+            ('sweep_tls_unwrap', nb * SLOTS),
             ('sweep_with_hold', nb * (SLOTS // 4)),
             ('early_faults', nb * len(EARLY) * 6 * 4),
             ('rebind', nb * (SLOTS // 4)),
@@ -193,6 +194,19 @@ def make_case(family, i, rng, tier):
         elif idx % 3 == 2:
             c['iterate_in_thread'] = True
         return c
+    if family == 'sweep_tls_unwrap':
+        # TLS connections whose peer does not take part in an orderly TLS
+        # shutdown: SSLSocket.unwrap(), should the library call it, fails
+        # (or gets no answer until the socket's time-out)
+        c = make_case('sweep', i, rng, tier)
+        if c is not None:
+            b = C09.bases()[c['base']]
+            proxies = (b.get('ws') or {}).get('proxies') or {}
+            if not (b['url'].startswith('wss') or
+                    any(str(v).startswith('https') for v in proxies.values())):
+                return None
+            c['tls_unwrap'] = ['fail', 'stall'][i % 2]
+        return c
     if family == 'sweep_fd0':
         # a process without stdin: the first socket gets descriptor 0
         c = make_case('sweep', i, rng, tier)
@@ -248,6 +262,9 @@ def build(case):
                        'do': [{'op': 'close'}]})
     if case.get('fd0'):
         sc['fd_base'] = 0
+    if case.get('tls_unwrap'):
+        for cn in sc['conns']:
+            cn['tls_unwrap'] = case['tls_unwrap']
     for k in ('pre_with_failure', 'iterate_in_thread'):
         if case.get(k):
             sc[k] = True
@@ -341,10 +358,13 @@ def execute(case):
         res.stats['probe:long_url'] += 1
     if case.get('fd0'):
         res.stats['probe:descriptor_zero'] += 1
+    if case.get('tls_unwrap'):
+        res.stats['probe:tls_peer_without_orderly_shutdown'] += 1
     res.nontrivial = bool(w.socks)
     res.sig = '%s|%d|%s|%r|%r|%r' % (base, idx, how, case.get('faults'),
                                      case.get('early'),
-                                     (case.get('long_url'), case.get('fd0')))
+                                     (case.get('long_url'), case.get('fd0'),
+                                      case.get('tls_unwrap')))
     res.sample = {'base': base, 'abandon_at': idx, 'event': evname,
                   'how': how, 'faults': case.get('faults'),
                   'release': rel, 'events': names[-6:]}
